@@ -42,6 +42,8 @@ def check(ctx, report):
     report.rule('C03.R3', 'returned length is a sound form')
     report.rule('C03.R4', 'sizes handed to primitives are non-negative; cursor writes are checked quantities')
     report.rule('C03.R5', 'framing units: body contained in the declared length; frame never empty')
+    nested_lengths(ctx, report)
+    item_windows(ctx, report)
     entry_points(ctx, report)
     ownership(ctx, report)
     return_lengths(ctx, report)
@@ -649,3 +651,102 @@ def ssl_record(ctx, report, c, cn, cons):
     if 'variant' in kinds:
         report.add('C03.R5', cons + '@containment[record_length]',
                    'the SSL 2.0 message is parsed on the unbounded remainder (parse_variant), not inside the declared record_length bytes')
+
+
+# ---- R6: the length a nested parse reports is not thrown away -----------------------------------------------------
+
+def nested_lengths(ctx, report):
+    """a call of K.parse_immutable / K.parse_mutable / K._parse returns (object, consumed length). A caller that keeps
+    only the object accepts any input the nested parser consumed a *prefix* of (string enums match their longest known
+    prefix, vectors stop at their declared size): the rest of the field is silently dropped and a longer unknown value
+    is decoded as a shorter known one. The length must be bound to a name that is read afterwards, or the pair must be
+    returned / used whole."""
+    model = ctx.model
+    report.rule('C03.R6', 'the consumed length reported by a nested parse call is used by the caller')
+    for f in model.functions():
+        if f.module.external:
+            continue
+        parents = {}
+        for n in ast.walk(f.node):
+            for ch in ast.iter_child_nodes(n):
+                parents[id(ch)] = n
+        for n in ast.walk(f.node):
+            if not (isinstance(n, ast.Call) and isinstance(n.func, ast.Attribute) and n.func.attr in ('parse_immutable', 'parse_mutable', '_parse')):
+                continue
+            report.count('C03.R6')
+            report.touch(f)
+            par = parents.get(id(n))
+            ok = True
+            why = ''
+            if isinstance(par, ast.Assign) and len(par.targets) == 1:
+                t = par.targets[0]
+                if isinstance(t, (ast.Tuple, ast.List)) and len(t.elts) == 2:
+                    ln = t.elts[1]
+                    if not isinstance(ln, ast.Name) or not name_read_after(f.node, ln.id, par):
+                        ok, why = False, 'the length is bound to %s and never read' % ast.unparse(ln)
+                elif isinstance(t, ast.Name):
+                    uses = [x for x in ast.walk(f.node) if isinstance(x, ast.Subscript) and isinstance(x.value, ast.Name) and x.value.id == t.id]
+                    idx = {ast.unparse(u.slice) for u in uses}
+                    whole = any(isinstance(x, ast.Return) and isinstance(x.value, ast.Name) and x.value.id == t.id for x in ast.walk(f.node))
+                    if not whole and '1' not in idx and '-1' not in idx:
+                        ok, why = False, 'only the object part of %s is used' % t.id
+            elif isinstance(par, ast.Subscript) and ast.unparse(par.slice) in ('0',):
+                ok, why = False, 'the call is indexed with [0]: the length is dropped'
+            elif isinstance(par, ast.Expr):
+                ok, why = False, 'the result is discarded'
+            if not ok:
+                report.add('C03.R6', '%s@nested[%s]' % (f.construct, ast.unparse(n.func)[:50]),
+                           'nested parse %s: %s - a value longer than what the nested parser consumed is accepted and truncated' % (ast.unparse(n)[:60], why))
+    report.floor('C03.R6', 8, 'nested parse calls')
+
+
+def name_read_after(fnode, name, after):
+    for x in ast.walk(fnode):
+        if isinstance(x, ast.Name) and x.id == name and isinstance(x.ctx, ast.Load) and getattr(x, 'lineno', 0) >= after.lineno:
+            return True
+    return False
+
+
+# ---- R7: items of a sized array are parsed inside the declared window ------------------------------------------------
+
+def item_windows(ctx, report):
+    """the array primitives that take the byte size of the array (``items_size``) must hand their item parsers a buffer that
+    ends where the declared array ends: the initial binding of the buffer variable is a slice of the input whose upper
+    bound is offset + items_size, and it is only ever re-bound to a suffix of itself. Otherwise the last item can read
+    bytes that belong to the next field (n exceeds the declared size)."""
+    model = ctx.model
+    report.rule('C03.R7', 'sized array primitives parse their items from a slice bounded by the declared size')
+    for cname in ('ParserBase', 'ParserBinary', 'ParserText'):
+        c = model.try_cls(cname)
+        if c is None:
+            continue
+        for name, f in c.methods.items():
+            params = [a.arg for a in f.node.args.args]
+            if 'items_size' not in params:
+                continue
+            calls = [n for n in ast.walk(f.node) if isinstance(n, ast.Call) and isinstance(n.func, ast.Attribute) and n.func.attr == 'parse_immutable' and n.args]
+            if not calls:
+                continue
+            report.touch(f)
+            for call in calls:
+                report.count('C03.R7')
+                arg = call.args[0]
+                if not isinstance(arg, ast.Name):
+                    if not (isinstance(arg, ast.Subscript) and isinstance(arg.slice, ast.Slice) and arg.slice.upper is not None and 'items_size' in ast.unparse(arg.slice.upper)):
+                        report.add('C03.R7', '%s@window[%s]' % (f.construct, ast.unparse(call.func)[:40]), 'item parser input %s is not bounded by items_size' % ast.unparse(arg)[:60])
+                    continue
+                assigns = sorted([st for st in ast.walk(f.node) if isinstance(st, ast.Assign) and any(isinstance(t, ast.Name) and t.id == arg.id for t in st.targets)],
+                                 key=lambda st: st.lineno)
+                if not assigns:
+                    report.add('C03.R7', '%s@window[%s]' % (f.construct, arg.id), 'item parser input %s is never bound' % arg.id)
+                    continue
+                first = assigns[0].value
+                bounded = isinstance(first, ast.Subscript) and isinstance(first.slice, ast.Slice) and first.slice.upper is not None and \
+                    'items_size' in ast.unparse(first.slice.upper) and '_parsable' in ast.unparse(first.value)
+                suffix_only = all(isinstance(st.value, ast.Subscript) and isinstance(st.value.value, ast.Name) and st.value.value.id == arg.id and
+                                  isinstance(st.value.slice, ast.Slice) and st.value.slice.upper is None for st in assigns[1:])
+                if not bounded or not suffix_only:
+                    report.add('C03.R7', '%s@window[%s]' % (f.construct, arg.id),
+                               'the buffer handed to the item parsers (%s = %s) does not end at offset + items_size: the last item can read past the declared array' % (
+                                   arg.id, ast.unparse(first)[:60]))
+    report.floor('C03.R7', 2, 'sized array item parses')
